@@ -42,6 +42,9 @@ def check_type(value: Any, attr_type: Type) -> bool:
     if attr_type is Any or isinstance(attr_type, TypeVar):
         return True
 
+    if attr_type is None:  # `None` is the conventional spelling of `NoneType`.
+        attr_type = type(None)
+
     if attr_type is float:
         attr_type = numbers.Real
 
@@ -104,6 +107,8 @@ def _check_subclass(value: type, class_type: Type) -> bool:
     """
     if class_type is Any or isinstance(class_type, TypeVar):
         return True
+    if class_type is None:
+        class_type = type(None)
     if getattr(class_type, "__origin__", None) is Union or (
         sys.version_info >= (3, 10) and isinstance(class_type, types.UnionType)
     ):
